@@ -22,6 +22,17 @@ func scalePrograms() []*gen.Program {
 		return x
 	}
 	for _, n := range scaleSizes {
+		// dense runs of one-letter operands (most nodes per byte) and of sort terms
+		letters := func(i int) gen.Expr { return gen.Col(string(rune('a' + i%26))) }
+		var terms []gen.SortTerm
+		for i := 0; i < n && i < 64; i++ {
+			terms = append(terms, gen.SortTerm{X: letters(i)})
+		}
+		out = append(out,
+			where(chain("+", n, letters)),
+			where(chain("or", n, letters)),
+			gen.Single(&gen.Pipeline{Source: gen.Ident{Name: "T"}, Ops: []gen.Op{&gen.Sort{Kw: "sort", Terms: terms}}}),
+		)
 		// sibling groups
 		out = append(out,
 			where(chain("and", n, func(int) gen.Expr { return &gen.Paren{X: a} })),
